@@ -63,7 +63,7 @@ def make_fn(s1, s2):
         R.assume(rtol2 >= rtol)
         R.assume(atol2 >= atol)
         ic2 = a.isclose(b, rtol=rtol2, atol=atol2)
-        goals.append(("isclose-monotone", G.implies(ic, ic2)))
+        goals.append(("isclose-monotone", G.implies_componentwise(ic, ic2)))
         if same:
             _, c1 = lanes.stored(a)
             _, c2 = lanes.stored(b)
